@@ -73,3 +73,361 @@ Proof.
   intros F N (pre & a & E & O). subst atts. apply Forall_app in F. destruct F as [_ F].
   inversion F; subst. congruence.
 Qed.
+
+(* ------------------------------------------------------------------ bookkeeping lemmas *)
+Lemma emitted_fst_ge n ops g : In g (emitted n ops) -> n <= fst g.
+Proof.
+  revert n. induction ops as [|o ops IH]; intros n H; [contradiction|].
+  destruct o as [m|]; cbn in H.
+  - destruct H as [H|H]; [subst; cbn; lia|]. apply IH in H. lia.
+  - apply IH in H. lia.
+Qed.
+
+Lemma emitted_nodup n ops : NoDup (map fst (emitted n ops)).
+Proof.
+  revert n. induction ops as [|o ops IH]; intros n; [constructor|].
+  destruct o as [m|]; cbn; [|apply IH].
+  constructor; [|apply IH].
+  intros H. apply in_map_iff in H. destruct H as (g & E & H).
+  apply emitted_fst_ge in H. cbn in E. lia.
+Qed.
+
+Lemma emitted_real n ops g : In g (emitted n ops) <-> real n ops g.
+Proof.
+  revert n. induction ops as [|o ops IH]; intros n.
+  - split; [contradiction|]. intros (i & _ & E). destruct i; discriminate.
+  - destruct o as [m|]; cbn [emitted].
+    + split.
+      * intros [H|H]; [subst; exists 0; split; [cbn; lia|reflexivity]|].
+        apply IH in H. destruct H as (i & E1 & E2). exists (S i). split; [lia|exact E2].
+      * intros (i & E1 & E2). destruct i as [|i]; cbn in E2.
+        -- left. inversion E2. destruct g as [gi gm]; cbn in *. subst. f_equal. lia.
+        -- right. apply IH. exists i. split; [lia|exact E2].
+    + rewrite IH. split.
+      * intros (i & E1 & E2). exists (S i). split; [lia|exact E2].
+      * intros (i & E1 & E2). destruct i as [|i]; cbn in E2; [discriminate|].
+        exists i. split; [lia|exact E2].
+Qed.
+
+Lemma acked_incl n ops : forall rs g, In g (acked n ops rs) -> In g (emitted n ops).
+Proof.
+  revert n. induction ops as [|o ops IH]; intros n rs g H; [destruct rs; contradiction|].
+  destruct rs as [|x rs]; [contradiction|]. cbn [acked] in H. apply in_app_or in H.
+  destruct o as [m|]; cbn [emitted].
+  - destruct H as [H|H].
+    + unfold acked1 in H. destruct x; try contradiction. destruct H as [H|[]]. left. exact H.
+    + right. eapply IH. exact H.
+  - destruct H as [H|H]; [contradiction|]. eapply IH. exact H.
+Qed.
+
+(* [acked] is a sublist of [emitted], in the same order *)
+Inductive sublist {A} : list A -> list A -> Prop :=
+| sub_nil : sublist [] []
+| sub_skip x l1 l2 : sublist l1 l2 -> sublist l1 (x :: l2)
+| sub_take x l1 l2 : sublist l1 l2 -> sublist (x :: l1) (x :: l2).
+
+Lemma acked_sublist n ops : forall rs, sublist (acked n ops rs) (emitted n ops).
+Proof.
+  revert n. induction ops as [|o ops IH]; intros n rs.
+  - destruct rs; constructor.
+  - destruct rs as [|x rs]; cbn [acked emitted].
+    + clear IH. generalize (S n). destruct o as [m|]; intros k.
+      * constructor. revert k. induction ops as [|o' ops' IH']; intros k; [constructor|].
+        destruct o'; cbn; [constructor|]; apply IH'.
+      * revert k. induction ops as [|o' ops' IH']; intros k; [constructor|].
+        destruct o'; cbn; [constructor|]; apply IH'.
+    + destruct o as [m|]; cbn [acked1].
+      * destruct x; cbn [app]; try (constructor; apply IH).
+      * destruct x; cbn [app]; apply IH.
+Qed.
+
+Lemma sublist_in {A} (l1 l2 : list A) x : sublist l1 l2 -> In x l1 -> In x l2.
+Proof. induction 1 as [|y l1 l2 S IH|y l1 l2 S IH]; intros Hin; [contradiction| right; auto | destruct Hin; [left; auto|right; auto]]. Qed.
+
+Lemma sublist_map {A B} (f : A -> B) l1 l2 : sublist l1 l2 -> sublist (map f l1) (map f l2).
+Proof. induction 1; cbn; [constructor|constructor; assumption|constructor; assumption]. Qed.
+
+Lemma sublist_nodup {A} (l1 l2 : list A) : sublist l1 l2 -> NoDup l2 -> NoDup l1.
+Proof.
+  induction 1; intros N; [constructor| |].
+  - inversion N; auto.
+  - inversion N; subst. constructor; auto. intros Hin. eauto using sublist_in.
+Qed.
+
+Lemma sublist_filter {A} (f : A -> bool) l : sublist (filter f l) l.
+Proof. induction l as [|x l IH]; cbn; [constructor|]. destruct (f x); constructor; exact IH. Qed.
+
+Lemma acked_nodup n ops rs : NoDup (map fst (acked n ops rs)).
+Proof. eapply sublist_nodup; [apply sublist_map, acked_sublist|apply emitted_nodup]. Qed.
+
+Lemma nodup_map_inv {A B} (f : A -> B) l : NoDup (map f l) -> NoDup l.
+Proof.
+  induction l as [|x l IH]; cbn; intros N; [constructor|]. inversion N; subst.
+  constructor; auto. intros H. apply H1. now apply in_map.
+Qed.
+
+(* which metrics are acknowledged: exactly those whose emit answered Ok *)
+Lemma acked_iff ops : forall n rs g, length rs = length ops ->
+  (In g (acked n ops rs) <->
+   exists i k, fst g = n + i /\ nth_error ops i = Some (Emit (snd g)) /\ nth_error rs i = Some (OOk k)).
+Proof.
+  induction ops as [|o ops IH]; intros n rs g L.
+  - destruct rs; [|discriminate]. split; [contradiction|]. intros (i & k & _ & E & _). destruct i; discriminate.
+  - destruct rs as [|x rs]; [discriminate|]. cbn in L. injection L as L.
+    cbn [acked]. rewrite in_app_iff, (IH (S n) rs g L). split.
+    + intros [H|(i & k & E1 & E2 & E3)].
+      * unfold acked1 in H. destruct o as [m|]; [|contradiction]. destruct x; try contradiction.
+        destruct H as [H|[]]. subst g. exists 0, n0. cbn. split; [lia|split; reflexivity].
+      * exists (S i), k. split; [lia|split; assumption].
+    + intros (i & k & E1 & E2 & E3). destruct i as [|i]; cbn in E2, E3.
+      * left. inversion E2; subst. inversion E3; subst. cbn. left. destruct g as [gi gm]; cbn in *. f_equal. lia.
+      * right. exists i, k. split; [lia|split; assumption].
+Qed.
+
+(* ------------------------------------------------------------------ the ledger of a whole life *)
+Definition fit_ids c e (l : list gm) := filter (fitg c e) l.
+Definition big_ids c e (l : list gm) := filter (fun g => negb (fitg c e g)) l.
+
+Theorem ledger_reach c e script ops rs s :
+  run_from (init c e script) 0 ops = (rs, s) ->
+  filter (nzb e) (sentL (lg s) ++ bids s) = filter (nzb e) (fit_ids c e (acked 0 ops rs)) /\
+  sentA (lg s) = big_ids c e (acked 0 ops rs).
+Proof.
+  intros H. destruct (reach_inv _ _ _ _ _ _ H) as (_ & _ & _ & atts & P).
+  destruct P as [_ _ Lg _ _ _ _ L A _ _]. cbn in Lg, L, A. rewrite Lg. split; assumption.
+Qed.
+
+Theorem ledger_run c e script ops rs s :
+  run c e script ops = (rs, s) ->
+  filter (nzb e) (sentL (lg s) ++ bids s) = filter (nzb e) (fit_ids c e (acked 0 ops rs)) /\
+  sentA (lg s) = big_ids c e (acked 0 ops rs).
+Proof.
+  unfold run. destruct (run_from (init c e script) 0 ops) as [rs0 s1] eqn:R.
+  intros H; inversion H; subst; clear H.
+  destruct (ledger_reach _ _ _ _ _ _ R) as [L A].
+  destruct (reach_inv _ _ _ _ _ _ R) as (I & C & E & _).
+  unfold mlw_drop. destruct (flush_buf s1 (length ops)) as [r s2] eqn:F. cbn [snd].
+  apply flushbuf_spec in F; [|exact I].
+  destruct F as (_ & _ & datts & [X _] & _ & DA & _ & _ & DL & _).
+  rewrite E in DL. rewrite X, sentL_app, sentA_app, DA, app_nil_r. split; [|exact A].
+  rewrite <- app_assoc, filter_app, DL, <- filter_app. exact L.
+Qed.
+
+(* ------------------------------------------------------------------ C07: any fault script *)
+Theorem results_sound c e script ops rs s :
+  run_from (init c e script) 0 ops = (rs, s) ->
+  length rs = length ops /\ Forall2 res_ok ops rs /\
+  forall i x, nth_error rs i = Some x ->
+    match x with
+    | OErr er => exists a, In a (lg s) /\ a_op a = i /\ a_out a = WErr er
+    | OIntr => exists a, In a (lg s) /\ a_op a = i /\ a_out a = WIntr
+    | OPanic => False
+    | OOk _ => True
+    end.
+Proof.
+  intros H. destruct (reach_inv _ _ _ _ _ _ H) as (_ & _ & _ & atts & P).
+  destruct P as [_ _ Lg _ _ Len Res _ _ Err _]. cbn in Lg. rewrite Lg.
+  split; [exact Len|]. split; [exact Res|].
+  intros i x Hn. specialize (Err i x Hn). cbn in Err.
+  destruct x; auto.
+  assert (exists o, nth_error ops i = Some o) as [o Ho].
+  { destruct (nth_error ops i) eqn:E; [eauto|]. apply nth_error_None in E.
+    assert (i < length rs) by (apply nth_error_Some; congruence). lia. }
+  clear - Res Hn Ho. revert i Hn Ho. induction Res; intros i Hn Ho; destruct i; cbn in *; try discriminate.
+  - inversion Hn; inversion Ho; subst. destruct o; exact H.
+  - eauto.
+Qed.
+
+Lemma sentL_acked c e script ops rs s g :
+  run c e script ops = (rs, s) -> nzb e g = true -> In g (sentL (lg s)) -> In g (acked 0 ops rs).
+Proof.
+  intros H Nz Hin. destruct (ledger_run _ _ _ _ _ _ H) as [L _].
+  assert (Hf : In g (filter (nzb e) (sentL (lg s) ++ bids s))).
+  { apply filter_In. split; [apply in_or_app; left; exact Hin|exact Nz]. }
+  rewrite L in Hf. apply filter_In in Hf. destruct Hf as [Hf _].
+  unfold fit_ids in Hf. apply filter_In in Hf. tauto.
+Qed.
+
+Lemma nodup_app_l {A} (a b : list A) : NoDup (a ++ b) -> NoDup a.
+Proof.
+  induction a as [|x a IH]; cbn; intros N; [constructor|]. inversion N; subst.
+  constructor; [|auto]. intros H. apply H1. apply in_or_app. now left.
+Qed.
+
+Theorem no_dup_run c e script ops rs s :
+  run c e script ops = (rs, s) ->
+  NoDup (filter (nzb e) (sentL (lg s))) /\ NoDup (sentA (lg s)).
+Proof.
+  intros H. destruct (ledger_run _ _ _ _ _ _ H) as [L A].
+  assert (N : NoDup (acked 0 ops rs)) by (eapply nodup_map_inv, acked_nodup).
+  split.
+  - assert (N1 : NoDup (filter (nzb e) (sentL (lg s) ++ bids s))).
+    { rewrite L. eapply sublist_nodup; [apply sublist_filter|].
+      eapply sublist_nodup; [apply sublist_filter|exact N]. }
+    rewrite filter_app in N1. apply nodup_app_l in N1. exact N1.
+  - rewrite A. eapply sublist_nodup; [apply sublist_filter|exact N].
+Qed.
+
+(* an emit that returned an error is never written, not even later *)
+Theorem no_resurrection c e script ops rs s i m x :
+  run c e script ops = (rs, s) ->
+  nth_error ops i = Some (Emit m) -> nth_error rs i = Some x -> (forall k, x <> OOk k) ->
+  (nzb e (i, m) = true -> ~ In (i, m) (sentL (lg s))) /\ ~ In (i, m) (sentA (lg s)).
+Proof.
+  intros H Ho Hr Hx.
+  assert (Len : length rs = length ops).
+  { unfold run in H. destruct (run_from (init c e script) 0 ops) as [rs0 s1] eqn:R.
+    inversion H; subst. now destruct (results_sound _ _ _ _ _ _ R). }
+  assert (Hna : ~ In (i, m) (acked 0 ops rs)).
+  { intros Hin. apply (acked_iff ops 0 rs (i, m) Len) in Hin.
+    destruct Hin as (j & k & E1 & E2 & E3). cbn in E1. subst j. rewrite Hr in E3. inversion E3. eapply Hx; eauto. }
+  split.
+  - intros Nz Hin. apply Hna. eapply sentL_acked; eassumption.
+  - intros Hin. destruct (ledger_run _ _ _ _ _ _ H) as [_ A]. rewrite A in Hin.
+    apply filter_In in Hin. tauto.
+Qed.
+
+(* ------------------------------------------------------------------ flush points *)
+Theorem flush_point c e script ops rs k s :
+  run_from (init c e script) 0 (ops ++ [Flush]) = (rs ++ [OOk k], s) -> length rs = length ops ->
+  bbuf s = [] /\ bids s = [] /\ written s = 0 /\
+  filter (nzb e) (sentL (lg s)) = filter (nzb e) (fit_ids c e (acked 0 ops rs)) /\
+  sentA (lg s) = big_ids c e (acked 0 ops rs).
+Proof.
+  intros H Len. pose proof H as H0. rewrite run_from_app in H0.
+  destruct (run_from (init c e script) 0 ops) as [r1 s1] eqn:R1. cbn [run_from] in H0.
+  destruct (step s1 (0 + length ops) Flush) as [x s2] eqn:S2. inversion H0; subst; clear H0.
+  assert (Lr1 : length r1 = length ops) by (now destruct (results_sound _ _ _ _ _ _ R1)).
+  assert (r1 = rs /\ x = OOk k) as [-> ->].
+  { assert (E : r1 ++ [x] = rs ++ [OOk k]) by assumption.
+    apply app_inj_tail in E. exact E. }
+  destruct (reach_inv _ _ _ _ _ _ R1) as (I1 & _ & _ & _).
+  destruct (step_spec _ _ _ _ _ I1 S2) as [atts P]. destruct P as [_ _ _ _ _ _ _ _ _ _ Fl].
+  destruct (Fl eq_refl) as [_ Fl2]. destruct (Fl2 k eq_refl) as (B1 & B2 & B3).
+  destruct (ledger_reach _ _ _ _ _ _ H) as [L A].
+  rewrite B2, app_nil_r in L.
+  assert (Ea : acked 0 (ops ++ [Flush]) (rs ++ [OOk k]) = acked 0 ops rs).
+  { clear - Len. generalize 0. revert rs Len. induction ops as [|o ops IH]; intros rs Len n.
+    - destruct rs; [reflexivity|discriminate].
+    - destruct rs as [|y rs]; [discriminate|]. cbn. f_equal. apply IH. cbn in Len. lia. }
+  rewrite Ea in L, A. repeat split; assumption.
+Qed.
+
+(* a flush right after a successful flush writes nothing *)
+Theorem flush_idem c e script ops rs s n k s1 n' x s2 :
+  run_from (init c e script) 0 ops = (rs, s) ->
+  step s n Flush = (OOk k, s1) -> step s1 n' Flush = (x, s2) ->
+  x = OOk 0 /\ lg s2 = lg s1.
+Proof.
+  intros R S1 S2. destruct (reach_inv _ _ _ _ _ _ R) as (I & _).
+  destruct (step_spec _ _ _ _ _ I S1) as [a1 P1]. destruct P1 as [I1 _ _ _ _ _ _ _ _ _ Fl1].
+  destruct (Fl1 eq_refl) as [_ F]. destruct (F k eq_refl) as (B1 & B2 & B3).
+  destruct (step_spec _ _ _ _ _ I1 S2) as [a2 P2]. destruct P2 as [_ _ [X2 _] _ R2 E2 _ _ _ _ Fl2].
+  destruct (Fl2 eq_refl) as [Nil _]. specialize (Nil B1). subst a2. rewrite app_nil_r in X2.
+  split; [|exact X2].
+  destruct x; cbn in R2, E2.
+  - now subst.
+  - destruct E2 as (p & a & E & _). destruct p; discriminate.
+  - destruct E2 as (p & a & E & _). destruct p; discriminate.
+  - contradiction.
+Qed.
+
+(* ------------------------------------------------------------------ C06: fault-free *)
+Theorem fault_free_all_ok c e ops rs s :
+  run_from (init c e []) 0 ops = (rs, s) ->
+  Forall2 (fun o x => x = OOk (match o with Emit m => length m | Flush => 0 end)) ops rs.
+Proof.
+  intros H. destruct (results_sound _ _ _ _ _ _ H) as (Len & Res & Err).
+  destruct (ok_run _ _ _ _ _ H) as [_ Ok]. rewrite Forall_forall in Ok.
+  assert (Hx : forall i x, nth_error rs i = Some x -> exists k, x = OOk k).
+  { intros i x Hn. specialize (Err i x Hn). destruct x; eauto.
+    - destruct Err as (a & Ia & _ & Oa). rewrite (Ok a Ia) in Oa. discriminate.
+    - destruct Err as (a & Ia & _ & Oa). rewrite (Ok a Ia) in Oa. discriminate.
+    - contradiction. }
+  clear - Res Hx. induction Res; constructor.
+  - destruct (Hx 0 y eq_refl) as [k ->]. destruct x; cbn in H; now subst.
+  - apply IHRes. intros i z Hn. apply (Hx (S i) z Hn).
+Qed.
+
+Lemma acked_all_ok ops : forall n rs,
+  Forall2 (fun o x => x = OOk (match o with Emit m => length m | Flush => 0 end)) ops rs ->
+  acked n ops rs = emitted n ops.
+Proof.
+  induction ops as [|o ops IH]; intros n rs F; inversion F; subst; [reflexivity|].
+  cbn [acked emitted]. rewrite (IH (S n) _ H3). destruct o; reflexivity.
+Qed.
+
+Theorem fault_free_conserve c e ops rs s :
+  run c e [] ops = (rs, s) ->
+  filter (nzb e) (sentL (lg s)) = filter (nzb e) (fit_ids c e (emitted 0 ops)) /\
+  sentA (lg s) = big_ids c e (emitted 0 ops) /\
+  Forall (fun a => a_out a = WOk) (lg s).
+Proof.
+  intros H. pose proof H as H0. unfold run in H0.
+  destruct (run_from (init c e []) 0 ops) as [rs0 s1] eqn:R. inversion H0; subst; clear H0.
+  pose proof (fault_free_all_ok _ _ _ _ _ R) as AllOk.
+  destruct (ledger_run _ _ _ _ _ _ H) as [L A].
+  rewrite (acked_all_ok _ _ _ AllOk) in L, A.
+  pose proof (ok_run _ _ _ _ _ R) as OkR.
+  pose proof (mlw_drop_io all_ok all_ok_under s1 (length ops) OkR) as [_ OkD].
+  (* after the drop nothing is pending *)
+  destruct (reach_inv _ _ _ _ _ _ R) as (I & _).
+  assert (Hb : bids (mlw_drop s1 (length ops)) = []).
+  { unfold mlw_drop in *. destruct (flush_buf s1 (length ops)) as [r s2] eqn:F. cbn [snd] in *.
+    apply flushbuf_spec in F; [|exact I].
+    destruct F as (_ & _ & datts & [X _] & _ & _ & _ & _ & _ & M).
+    destruct r; try contradiction; [now destruct M|].
+    destruct M as [M _]. exfalso. eapply err_last_not_ok; [| |exact M]; [|discriminate].
+    rewrite X in OkD. apply Forall_app in OkD. tauto. }
+  rewrite Hb, app_nil_r in L. repeat split; assumption.
+Qed.
+
+Theorem own_emit c e script ops rs s :
+  run c e script ops = (rs, s) ->
+  Forall (fun a => forall g, In g (ok_alone a) -> a_op a = fst g) (lg s).
+Proof.
+  unfold run. destruct (run_from (init c e script) 0 ops) as [rs0 s1] eqn:R.
+  intros H; inversion H; subst; clear H.
+  destruct (reach_inv _ _ _ _ _ _ R) as (I & _ & _ & atts & P).
+  destruct P as [_ _ Lg _ _ _ _ _ _ _ Own]. cbn in Lg.
+  unfold mlw_drop. destruct (flush_buf s1 (length ops)) as [r s2] eqn:F. cbn [snd].
+  apply flushbuf_spec in F; [|exact I].
+  destruct F as (_ & _ & datts & [X _] & _ & DA & _).
+  rewrite X, Lg. apply Forall_app; split; [exact Own|].
+  apply Forall_forall. intros a Ha g Hg. pose proof (sentA_in _ _ _ Ha Hg) as Hs. rewrite DA in Hs. contradiction.
+Qed.
+
+(* ------------------------------------------------------------------ C19: greedy packing *)
+Theorem must_write c e script ops rs s n m x s' :
+  run_from (init c e script) 0 ops = (rs, s) ->
+  step s n (Emit m) = (x, s') ->
+  exists atts, lg s' = lg s ++ atts /\ Forall (fun a => a_op a = n) atts /\
+    (atts <> [] -> c <= length (bbuf s) + length m + length e) /\
+    (forall a ms, In a atts -> a_lab a = Lines ms -> ~ In (n, m) ms ->
+                  c < length (a_bytes a) + length m + length e) /\
+    (length (bbuf s) + length m + length e < c -> atts = [] /\ x = OOk (length m)).
+Proof.
+  intros R S. destruct (reach_inv _ _ _ _ _ _ R) as (I & C & E & _).
+  destruct (step_spec _ _ _ _ _ I S) as [atts P].
+  destruct P as [_ _ [X O] _ Res Err _ _ Must Max _]. rewrite C, E in *.
+  exists atts. split; [exact X|]. split; [exact O|].
+  split; [apply Must; reflexivity|]. split; [intros a ms; apply Max; reflexivity|].
+  intros Lt. assert (Hn : atts = []).
+  { destruct atts as [|a l]; [reflexivity|]. exfalso.
+    assert (a :: l <> []) as N by discriminate. specialize (Must m eq_refl N). lia. }
+  split; [exact Hn|]. subst atts.
+  destruct x; cbn in Res, Err.
+  - now subst.
+  - destruct Err as (p & a & Ep & _). destruct p; discriminate.
+  - destruct Err as (p & a & Ep & _). destruct p; discriminate.
+  - contradiction.
+Qed.
+
+(* the buffered bytes are exactly the lines of the pending metrics *)
+Theorem buffer_is_pending c e script ops rs s :
+  run_from (init c e script) 0 ops = (rs, s) ->
+  bbuf s = concat (map (fun g => snd g ++ e) (bids s)) /\ length (bbuf s) <= c.
+Proof.
+  intros R. destruct (reach_inv _ _ _ _ _ _ R) as (I & C & E & _).
+  pose proof (inv_len _ I) as L. destruct I as [_ _ B]. rewrite E in B. rewrite C in L. split; assumption.
+Qed.
